@@ -1177,6 +1177,18 @@ func concurrent(out *hx.Writer, id string, r *hx.RNG, lazy, expire bool) {
 	w.emit(out, "concurrent")
 }
 
+// guard runs one case; when the messages the cache hands out are in a state the driver's own bookkeeping
+// cannot read any more (it indexes records it put there itself), that is reported as what it is: the cache
+// served or stored something other than what was put in.
+func guard(out *hx.Writer, id string, f func()) {
+	defer func() {
+		if p := recover(); p != nil {
+			out.Violation(id, fmt.Sprintf("a message served from / stored in the cache is not one the history can produce (driver bookkeeping failed: %v)", p), nil)
+		}
+	}()
+	f()
+}
+
 func main() {
 	o := hx.ParseFlags()
 	out := hx.NewWriter(o)
@@ -1186,9 +1198,12 @@ func main() {
 		if !o.Want(id) {
 			continue
 		}
-		w := newWorld(id, s.lazy, 0)
-		w.run(s.ops, nil)
-		w.emit(out, "catalogue")
+		s := s
+		guard(out, id, func() {
+			w := newWorld(id, s.lazy, 0)
+			w.run(s.ops, nil)
+			w.emit(out, "catalogue")
+		})
 	}
 	nc := 6
 	if o.Tier == "thorough" {
@@ -1200,7 +1215,8 @@ func main() {
 			continue
 		}
 		r := hx.NewRNG(o.Seed, id)
-		concurrent(out, id, r, i%2 == 1, i%4 == 3)
+		i := i
+		guard(out, id, func() { concurrent(out, id, r, i%2 == 1, i%4 == 3) })
 	}
 	n := o.Count(1500, 30000)
 	for i := 0; i < n; i++ {
@@ -1209,12 +1225,14 @@ func main() {
 			continue
 		}
 		r := hx.NewRNG(o.Seed, id)
-		w := newWorld(id, r.Bool(), hx.Pick(r, []int{0, 1024, 4096}))
-		w.run(nil, genHistory(r))
-		kind := "history"
-		if w.lazy {
-			kind = "history-lazy"
-		}
-		w.emit(out, kind)
+		guard(out, id, func() {
+			w := newWorld(id, r.Bool(), hx.Pick(r, []int{0, 1024, 4096}))
+			w.run(nil, genHistory(r))
+			kind := "history"
+			if w.lazy {
+				kind = "history-lazy"
+			}
+			w.emit(out, kind)
+		})
 	}
 }
